@@ -11,12 +11,14 @@ package main
 // a result (a return value, a sample); all logging goes through one mutex per case.
 
 import (
+	"bufio"
 	"bytes"
 	"context"
 	"fmt"
 	"net"
 	"net/url"
 	"os"
+	"os/exec"
 	"runtime"
 	"runtime/pprof"
 	"strconv"
@@ -65,11 +67,11 @@ type lcServer struct {
 	key   string
 	log   *lcLog
 	mu    sync.Mutex
-	gen   int              // generations dialled so far
-	fail  error            // when non-nil dialling fails
-	calls map[int64]int    // goroutine id -> id of the Connect call it is making
-	genOf map[int]int      // call id -> generation it established
-	conns chan *lcSrvConn  // accepted connections
+	gen   int             // generations dialled so far
+	fail  error           // when non-nil dialling fails
+	calls map[int64]int   // goroutine id -> id of the Connect call it is making
+	genOf map[int]int     // call id -> generation it established
+	conns chan *lcSrvConn // accepted connections
 }
 
 var (
@@ -374,15 +376,15 @@ type lcCase struct {
 	fresh   bool
 	cancel  context.CancelFunc // of the current connection's context
 	// handler plumbing
-	connectedCh chan int       // CONNECTED handler finished for generation g
-	parkedCh    chan struct{}  // the parked handler is in
+	connectedCh chan int        // CONNECTED handler finished for generation g
+	parkedCh    chan struct{}   // the parked handler is in
 	releaseCh   []chan struct{} // per cycle: closed to release it
-	emitCh      chan struct{}  // the emitting handler has started
-	discCh      chan int       // DISCONNECTED handler invoked for generation g
-	handlerConn chan error     // result of the Connect made inside the DISCONNECTED handler
-	cycle       int32          // index of the cycle whose connection is current
-	closersBack [8]int32       // per cycle: Close callers of that cycle that have returned
-	discSeen    int32          // highest generation whose DISCONNECTED handler has started
+	emitCh      chan struct{}   // the emitting handler has started
+	discCh      chan int        // DISCONNECTED handler invoked for generation g
+	handlerConn chan error      // result of the Connect made inside the DISCONNECTED handler
+	cycle       int32           // index of the cycle whose connection is current
+	closersBack [8]int32        // per cycle: Close callers of that cycle that have returned
+	discSeen    int32           // highest generation whose DISCONNECTED handler has started
 }
 
 func (k *lcCase) note(f string, a ...interface{}) {
@@ -662,9 +664,26 @@ func (k *lcCase) cycleBody(i int) bool {
 	} else {
 		s.mu.Lock()
 		o := own(s.lines)
+		// lines of the application in front of the registration: a handler's lines (#h) were all
+		// handed to Raw before the old event loop ended, none may turn up here; of a free
+		// goroutine's lines (#g, "PING :w") at most the ONE whose Raw call straddled the reconnect
+		nH, nG := 0, 0
+		for _, l := range s.lines {
+			if strings.HasPrefix(l, "NICK ") {
+				break
+			}
+			if strings.HasPrefix(l, "PRIVMSG #h :") {
+				nH++
+			} else if strings.HasPrefix(l, "PRIVMSG #g :") || l == "PING :w" {
+				nG++
+			}
+		}
 		s.mu.Unlock()
 		if !strings.HasPrefix(o[0], "NICK vbot") || !strings.HasPrefix(o[1], "USER vident") {
 			k.unfresh("cycle %d: transcript begins %q %q", i, o[0], o[1])
+		}
+		if nH > 0 || nG > 1 {
+			k.unfresh("cycle %d: %d+%d stale lines of the previous connection written before the registration", i, nH, nG)
 		}
 	}
 	if sc.tracking {
@@ -874,16 +893,178 @@ func (k *lcCase) abandon(s *lcSrvConn) bool {
 	return false
 }
 
-// ---------- parallel pre-execution ----------
-// Gen derives every input from the seed first, then the cases are run on a small worker pool
-// and Exec looks the result up (an input that was not pre-run — corpus, replay — runs now).
+// ---------- child processes and parallel pre-execution ----------
+// Every case runs in a CHILD process (this binary re-executed as "h LCchild"): an unrecovered
+// panic on a goroutine of the library (e.g. a nil socket) kills the whole process, and that
+// must become an observation — "dead" + the first line of the crash report, for exactly the
+// script that was in flight — not the death of the harness.  A child runs its batch of
+// scripts one after the other; 12 children run side by side.  Gen derives every input from the
+// seed first, hands them to the children, and Exec looks the result up (an input that was
+// not pre-run — corpus, replay — gets a child of its own).
+func init() {
+	props["LCchild"] = &Prop{
+		Gen:  func(r *Rand, tier string, scale int, emit func(Fields)) { lcChildMain() },
+		Exec: func(in Fields) Fields { return F("bad") },
+	}
+}
+
+// child: one input per stdin line; journal on stdout: "B <input>" when a case begins,
+// "R <input> | <obs>" when it has finished
+func lcChildMain() {
+	sc := bufio.NewScanner(os.Stdin)
+	sc.Buffer(make([]byte, 1<<20), 1<<28)
+	out := bufio.NewWriter(os.Stdout)
+	for sc.Scan() {
+		line := strings.TrimSpace(sc.Text())
+		if line == "" {
+			continue
+		}
+		in, err := ParseFields(line)
+		if err != nil {
+			os.Exit(3)
+		}
+		fmt.Fprintf(out, "B %s\n", in.String())
+		out.Flush()
+		obs := lcRunCase(lcParse(in)).fields()
+		fmt.Fprintf(out, "R %s | %s\n", in.String(), obs.String())
+		out.Flush()
+	}
+}
+
+// a bounded tail of the child's stderr (also forwarded to ours: goroutine dumps of hung cases)
+type lcTail struct {
+	mu  sync.Mutex
+	buf []byte
+}
+
+func (t *lcTail) Write(b []byte) (int, error) {
+	t.mu.Lock()
+	t.buf = append(t.buf, b...)
+	if len(t.buf) > 1<<16 {
+		t.buf = t.buf[len(t.buf)-1<<16:]
+	}
+	t.mu.Unlock()
+	return os.Stderr.Write(b)
+}
+
+// the crash report's headline: "panic: ..." / "fatal error: ..." and the [signal ...] line
+func (t *lcTail) headline() string {
+	t.mu.Lock()
+	defer t.mu.Unlock()
+	var keep []string
+	for _, l := range strings.Split(string(t.buf), "\n") {
+		if strings.HasPrefix(l, "panic:") || strings.HasPrefix(l, "fatal error:") || strings.HasPrefix(l, "[signal") {
+			keep = append(keep, strings.TrimSpace(l))
+		}
+	}
+	if len(keep) > 3 {
+		keep = keep[len(keep)-3:]
+	}
+	return strings.Join(keep, " ")
+}
+
+// lcRunBatch runs the inputs in child processes, restarting after a crash with what is left
+func lcRunBatch(inputs []Fields, deliver func(key string, obs Fields)) {
+	exe, err := os.Executable()
+	if err != nil {
+		exe = os.Args[0]
+	}
+	remaining := append([]Fields{}, inputs...)
+	drop := func(key string) {
+		for i, in := range remaining {
+			if in.String() == key {
+				remaining = append(remaining[:i], remaining[i+1:]...)
+				return
+			}
+		}
+	}
+	for len(remaining) > 0 {
+		var stdin strings.Builder
+		for _, in := range remaining {
+			stdin.WriteString(in.String() + "\n")
+		}
+		cmd := exec.Command(exe, "LCchild")
+		cmd.Stdin = strings.NewReader(stdin.String())
+		tail := &lcTail{}
+		cmd.Stderr = tail
+		pipe, err := cmd.StdoutPipe()
+		if err == nil {
+			err = cmd.Start()
+		}
+		if err != nil {
+			for _, in := range remaining {
+				deliver(in.String(), F("dead", "cannot-start-child: "+err.Error()))
+			}
+			return
+		}
+		lines := make(chan string, 64)
+		go func() {
+			sc := bufio.NewScanner(pipe)
+			sc.Buffer(make([]byte, 1<<20), 1<<28)
+			for sc.Scan() {
+				lines <- sc.Text()
+			}
+			close(lines)
+		}()
+		inflight, why := "", ""
+	read:
+		for {
+			select {
+			case l, ok := <-lines:
+				if !ok {
+					break read
+				}
+				switch {
+				case strings.HasPrefix(l, "B "):
+					inflight = strings.TrimSpace(l[2:])
+				case strings.HasPrefix(l, "R "):
+					k := strings.Index(l, "|")
+					if k < 0 {
+						continue
+					}
+					key := strings.TrimSpace(l[2:k])
+					if obs, perr := ParseFields(l[k+1:]); perr == nil {
+						deliver(key, obs)
+						drop(key)
+						inflight = ""
+					}
+				}
+			case <-time.After(8*lcBudget + 30*time.Second):
+				why = "child made no progress; killed"
+				cmd.Process.Kill()
+				break read
+			}
+		}
+		for range lines { // drain after a kill
+		}
+		werr := cmd.Wait()
+		if len(remaining) == 0 {
+			return
+		}
+		// the child ended with work left: the script in flight is the one that killed it
+		if why == "" {
+			why = tail.headline()
+			if why == "" && werr != nil {
+				why = werr.Error()
+			}
+		}
+		victim := inflight
+		if victim == "" {
+			victim = remaining[0].String() // died before it even began: do not loop for ever
+		}
+		deliver(victim, F("dead", why))
+		drop(victim)
+	}
+}
+
 var (
 	lcCacheMu sync.Mutex
 	lcCache   = map[string]chan Fields{}
 )
 
 func lcPrefetch(inputs []Fields, workers int) {
-	sem := make(chan struct{}, workers)
+	batches := make([][]Fields, workers)
+	n := 0
 	for _, in := range inputs {
 		key := in.String()
 		lcCacheMu.Lock()
@@ -891,28 +1072,46 @@ func lcPrefetch(inputs []Fields, workers int) {
 			lcCacheMu.Unlock()
 			continue
 		}
-		ch := make(chan Fields, 1)
-		lcCache[key] = ch
+		lcCache[key] = make(chan Fields, 1)
 		lcCacheMu.Unlock()
-		in := in
-		go func() {
-			sem <- struct{}{}
-			ch <- lcRunCase(lcParse(in)).fields()
-			<-sem
-		}()
+		batches[n%workers] = append(batches[n%workers], in)
+		n++
+	}
+	for _, b := range batches {
+		if len(b) == 0 {
+			continue
+		}
+		b := b
+		go lcRunBatch(b, func(key string, obs Fields) {
+			lcCacheMu.Lock()
+			ch := lcCache[key]
+			lcCacheMu.Unlock()
+			if ch != nil {
+				select {
+				case ch <- obs:
+				default:
+				}
+			}
+		})
 	}
 }
 func lcExec(in Fields) Fields {
 	lcCacheMu.Lock()
 	ch, ok := lcCache[in.String()]
-	if ok {
-		delete(lcCache, in.String())
-	}
 	lcCacheMu.Unlock()
 	if ok {
-		return <-ch
+		obs := <-ch
+		lcCacheMu.Lock()
+		delete(lcCache, in.String())
+		lcCacheMu.Unlock()
+		return obs
 	}
-	return lcRunCase(lcParse(in)).fields()
+	var got Fields
+	lcRunBatch([]Fields{in}, func(_ string, obs Fields) { got = obs })
+	if got == nil {
+		got = F("dead", "no observation")
+	}
+	return got
 }
 
 func lcClass(in Fields) string {
